@@ -73,7 +73,9 @@ pub fn run(ctx: &Ctx, reg: &Registry) -> i32 {
                 if !shard_of(si as u64 * n_cases + i, shard, n) {
                     continue;
                 }
-                let case = gen_case(reg, s, ctx.seed.wrapping_add(404), i, false);
+                // non-canonical numbers included (NegativeInteger(0), NegativeInteger(5)): what a report states about the
+                // value must be true of them too
+                let case = gen_case_h(reg, s, ctx.seed.wrapping_add(404), i, Host { dup: false, nonfinite: false, noncanon: true, alias: false });
                 note_case(&mut acc, s, &case);
                 check(&mut acc, reg, s, &case, Source::Ov, Script::Continue, true);
                 check(&mut acc, reg, s, &case, Source::Ov, Script::Break, false);
@@ -93,7 +95,7 @@ pub fn run(ctx: &Ctx, reg: &Registry) -> i32 {
                 if !shard_of(si as u64 * n_cases + i, shard, n) {
                     continue;
                 }
-                let case = gen_case_h(reg, s, ctx.seed.wrapping_add(4040), i, Host { dup: true, nonfinite: false, noncanon: true, alias: false });
+                let case = gen_case_h(reg, s, ctx.seed.wrapping_add(4040), i, Host { dup: true, nonfinite: false, noncanon: false, alias: false });
                 if unique_keys(&case.payload) {
                     continue;
                 }
